@@ -51,6 +51,7 @@ def install():
                 setattr(m, name, sched.VTime)
             elif val is _u:
                 setattr(m, name, sched.VUuid)
+    ao.pp = lambda item: None           # miros pretty-prints its source list before raising: keep stdout clean
     ao.SourceThreadEvent = CSourceThreadEvent
     ao.FiberThreadEvent.klass = CSourceThreadEvent
     # any lock a (repaired) SingletonDecorator instance created at import time is a real lock:
